@@ -9,6 +9,9 @@ import "math/big"
 // double-float, long-float, complex. signed-byte and unsigned-byte are
 // converted to bignum.
 func NormalizeNumber(v0, v1 Object) (n0, n1 Object) {
+	// An octet or a bit is a small integer, it takes part as a fixnum
+	// whichever operand it is and whatever the other operand is.
+	v0, v1 = smallToFixnum(v0), smallToFixnum(v1)
 top:
 	switch t0 := v0.(type) {
 	case Fixnum:
@@ -387,4 +390,14 @@ top:
 		TypePanic(NewScope(), 0, "numbers", t0, "number")
 	}
 	return
+}
+
+func smallToFixnum(v Object) Object {
+	switch tv := v.(type) {
+	case Octet:
+		v = Fixnum(tv)
+	case Bit:
+		v = Fixnum(tv)
+	}
+	return v
 }
